@@ -226,7 +226,8 @@ M_BIN = {"value-has-comma", "absent-label-matcher", "matcher-on-missing-key", "s
 # under the name the defect had.
 M_FIXED = {"tsid-preimage-collision", "no-tags", "negative-zero", "json-escaped-tag-value",
            "same-label-twice", "regex-on-empty-value", "tag-value-over-64k", "matcher-on-missing-key",
-           "numeric-tag-value", "remote-write-escape", "tsids-per-value-over-64k"}
+           "numeric-tag-value", "remote-write-escape", "tsids-per-value-over-64k",
+           "agg-value-has-brace", "binop-label-order", "binop-trailing-comma"}
 
 
 def m_sig(what, cls):
